@@ -61,12 +61,13 @@ PROPS = {
         "theorems": ["SpecVerif.C10." + t for t in [
             "int_cross", "uint_cross", "int_roundtrip", "uint_roundtrip", "bool_roundtrip", "byte_roundtrip",
             "bin64_roundtrip", "bin128_roundtrip", "bin256_roundtrip", "bytes_roundtrip", "string_roundtrip",
-            "float64_roundtrip", "float32_as_float64", "float32_roundtrip_partial", "float64_as_float32"]],
+            "float64_roundtrip", "float32_as_float64", "float32_decodes", "float32_roundtrip", "float32_snan_quieted",
+            "float64_as_float32", "ieee_laws", "float32_roundtrip_ieee", "float32_widen_exact"]],
         "ties": TIES,
         "streams": [wire_stream("c10")],
         "flag": WIRE_FLAG,
-        "trusted": ["IEEE widening/narrowing/comparison are parameters of the model (FloatOps/FloatLaws); the drivers' native float operations are compared with Go's on every run"],
-        "assumptions": ["float32<->float64 conversions behave as IEEE 754 (FloatLaws)", "values are in the range of their Go type"],
+        "trusted": ["the bit-level IEEE 754 conversion model (Wire/IEEE.lean: widen, narrow with round-to-nearest-even, quieting of signalling NaNs, comparisons with MaxFloat32) is what the decoders of the model run with; its laws are proved (ieee_laws), its agreement with the platform's conversions is checked on every float decode of the streams"],
+        "assumptions": ["a float32 signalling NaN reads back quieted through DecodeFloat32 (float32_snan_quieted): still a NaN; NaN payloads are compared as 'nan' by the streams", "values are in the range of their Go type"],
     },
     "C02": wire_prop("C02", ["decoders_safe", "openValue_safe", "parseValue_safe", "parseList_safe", "parseMessage_safe",
                              "list_accessors_safe", "message_accessors_safe", "genStructFields_safe", "genStructDecode_safe"],
@@ -75,9 +76,9 @@ PROPS = {
                      ["c13"], {"assumptions": ["the agreement theorems cover 'parser accepts => probe and open report the same size and bytes'; the probe accepting more than the recursive parser is by design"]}),
     "C01": writer_prop("C01", ["parse_exact", "probe_exact", "list_roundtrip", "msg_field_found", "msg_field_absent",
                                 "msg_enumerates_written", "absent_reads_zero", "writer_refines_layout",
-                                "written_tree_reads_back"], ["c01"],
+                                "written_tree_reads_back", "written_tree_reads_back_ieee"], ["c01"],
                        {"assumptions": ["writer_refines_layout covers the API programs of value trees (compRoot); Copy/Merge of a well-formed source is C16.copy_preserves, Any(raw bytes) enters as a leaf",
-                                        "message tags below 2^16 and total sizes below 2^32 (MsgWF); float32 laws (FloatLaws)"]}),
+                                        "message tags below 2^16 and total sizes below 2^32 (MsgWF); the float laws are proved for the bit-level IEEE model (C10.ieee_laws)"]}),
     "C08": writer_prop("C08", ["type_codes", "fixed_width_big_endian", "string_layout", "varint_widths", "list_big_iff",
                                 "list_type_code", "msg_big_iff", "msg_table_sorted", "readable_by_library", "bytes_depend_only_on_tree"], ["c08", "golden"],
                        {"diff_violation": c08_bytes_differ,
@@ -280,7 +281,7 @@ PROPS.update({
         "trusted": ["the Go toolchain compiles and runs the emitted tests; the harness' own resolved model of the schema (sabotage switches verify each oracle reports)",
                     "the generator's templates are tied by event sequences and the kind tables (generator_scalar_tables); the emitted Go text beyond those tables is exercised, not modelled"],
         "assumptions": ["names map to distinct Go identifiers (the property's precondition; see known finding F40 of C14)",
-                        "float32 is outside the model-level theorem (see C10.float32_roundtrip_partial); the run-time tests cover it"],
+                        "float32 is outside C05's model-level theorem (C10.float32_roundtrip covers every pattern except signalling NaNs, which come back quieted); the run-time tests cover it"],
     },
     "C04": mpx_prop("C04", ["no_foreign_data", "result_is_own", "ok_only_if_sent", "no_response_no_ok", "handler_once", "status_roundtrip"],
                     ev("rpc_client_Receive", "rpc_server_Receive", "conn_receiveOpen", "conn_receiveMessage", "conn_receiveData", "conn_receiveClose",
